@@ -304,8 +304,34 @@ def standin_artifact_name(tier, seed):
             n += 1
             if rc == 0:
                 return viol(name, bound, n, 'a file with two out statements builds: `%s`' % src.replace('\n', ' '), source=src, expected='build error (exit != 0)', observed='rc=0, files: %s' % sorted(tree(d)), how='`ucg build t%d.ucg`' % i)
-            if tier != 'thorough' and i >= 0:
+            if tier != 'thorough' and i >= 1:      # quick: same format twice and two different formats
                 break
+        # a failed out makes the INVOCATION fail wherever the file stands among the files of one command line, and the good files'
+        # artifacts are still exactly what they are alone
+        bad_srcs = ['out toml {a = NULL};\n', 'out flags 1;\n', 'out json 1;\nout json 2;\n']
+        good_src = 'out json {ok = 1};\n'
+        mf = os.path.join(work, 'multi')
+        os.mkdir(mf)
+        open(os.path.join(mf, 'good1.ucg'), 'w').write(good_src)
+        open(os.path.join(mf, 'good2.ucg'), 'w').write('out yaml {ok = 2};\n')
+        R.run_ucg(['build', 'good1.ucg'], mf)
+        alone = rd(os.path.join(mf, 'good1.json'))
+        for bi, bsrc in enumerate(bad_srcs if tier == 'thorough' else bad_srcs[:1]):
+            open(os.path.join(mf, 'bad.ucg'), 'w').write(bsrc)
+            for order in (['bad.ucg', 'good1.ucg'], ['good1.ucg', 'bad.ucg'], ['good1.ucg', 'bad.ucg', 'good2.ucg'], ['bad.ucg', 'good1.ucg', 'good2.ucg']):
+                for a in ('good1.json', 'good2.yaml', 'bad.toml', 'bad.json', 'bad.txt'):
+                    if os.path.exists(os.path.join(mf, a)):
+                        os.remove(os.path.join(mf, a))
+                rc, so, se = R.run_ucg(['build'] + order, mf)
+                n += 1
+                if rc == 0:
+                    return viol(name, bound, n, 'one of the files of the command line cannot be built (`%s`), yet the invocation exits 0' % bsrc.replace('\n', ' ').strip(),
+                                source={'bad.ucg': bsrc, 'good1.ucg': good_src, 'good2.ucg': 'out yaml {ok = 2};\n'}, expected='exit status != 0', observed='rc=0 ' + (so + se)[-300:],
+                                how='`ucg build %s`' % ' '.join(order))
+                got = rd(os.path.join(mf, 'good1.json'))
+                if got is not None and got != alone:
+                    return viol(name, bound, n, 'good1.json differs when good1.ucg is built next to a failing file', source={'bad.ucg': bsrc, 'good1.ucg': good_src}, expected=repr(alone), observed=repr(got),
+                                how='`ucg build %s`' % ' '.join(order))
         # ... also when the file is reached through `..`, `./` or an absolute path
         os.mkdir(os.path.join(d, 'conf'))
         os.mkdir(os.path.join(d, 'sib'))
